@@ -85,6 +85,14 @@ def bases(tier):
         if mode == "asap":
             mixed["tasks"].append(leaf("e", 45, "r2", deps=["d", {"ref": "b", "onstart": True}]))
         out.append(mixed)
+    # a CONTAINER as the successor of an edge, its children receiving the edge by inheritance: backward container with an end (the
+    # predecessor is pulled late), and a maxgap edge towards children that cannot start at once (the predecessor is delayed)
+    leaf = lambda i, m, r="r1", **kw: {"id": i, "effort": m, "alloc": [r], **kw}  # noqa: E731
+    out.append({"dur": "4w", "resources": [{"id": "r1"}, {"id": "r2"}],
+                "tasks": [leaf("a", 240), {"id": "g", "sched": "alap", "end": "2025-01-22-17:00", "deps": ["a"], "children": [leaf("x", 180, "r2"), leaf("y", 120, "r2", deps=["!x"])]},
+                          leaf("z", 60, deps=["g"])]})
+    out.append({"dur": "4w", "resources": [{"id": "r1"}, {"id": "r2", "leaves": [{"k": "leaves", "type": "annual", "a": "2025-01-06", "b": "2025-01-10"}]}],
+                "tasks": [leaf("a", 240), {"id": "g", "deps": [{"ref": "a", "maxgap": "4h"}], "children": [leaf("x", 180, "r2"), leaf("y", 120, "r2")]}]})
     return out
 
 
@@ -176,7 +184,7 @@ def rewrites_spec(spec):
                     t3["deps"].pop(i)
                     if not t3["deps"]:
                         del t3["deps"]
-                    opts = {k: v for k, v in d.items() if k in ("gap", "onstart") and v} if isinstance(d, dict) else {}
+                    opts = {k: v for k, v in d.items() if k in ("gap", "onstart", "maxgap", "gaplen") and v} if isinstance(d, dict) else {}
                     find(s3["tasks"], target).setdefault("prec", []).append({"ref": fid, **opts} if opts else fid)
                     yield f"precedes {target}->{fid}", s3, {}
     # the order of the entries of one depends list
@@ -319,7 +327,7 @@ def universe(tier):
         yield {"bi": bi, "kind": "orig"}
         for name, _s2, _m in rewrites_spec(spec):
             yield {"bi": bi, "kind": "spec", "name": name}
-        for name, _t in text_rewrites(text, tier, dense=(bi in (1, len(bs) - 5, len(bs) - 4, len(bs) - 2) or tier == "thorough")):
+        for name, _t in text_rewrites(text, tier, dense=(bi in (1, len(bs) - 7, len(bs) - 6, len(bs) - 4) or tier == "thorough")):
             yield {"bi": bi, "kind": "text", "name": name}
 
 
